@@ -4,7 +4,8 @@
 set -u
 export GOFLAGS=-mod=mod GOPROXY=off GOSUMDB=off GOTOOLCHAIN=local GONOSUMDB='*' GONOSUMCHECK=1 GOFLAGS=-mod=mod
 GO=go1.26.8
-V=/verif
+V=$(dirname "$(readlink -f "$0")")   # /verif, or a snapshot of it (vp run)
+export VERIF_DIR="$V"
 SIM=$V/sim
 BUILD=${VERIF_BUILD_DIR:-$V/.build}
 mkdir -p "$BUILD" "$V/evidence" "$V/replays"
